@@ -1,12 +1,181 @@
 /-
-C02 — State root is a canonical, format-stable commitment to content. (Theorems are added as they are proved.)
+C02 — State root is a canonical, format-stable commitment to content.
+
+"At a fixed trie version, the root hash depends only on the set of path/value pairs currently stored, never on the
+order of operations or on values stored and later removed.  Two tries with different content have different roots."
+
+Proved here (model `Verif.Model.Mpt` / `Verif.Model.MptEnc`):
+  * `C02_canonical_unique`     canonical tries (`WF`) with one origin and equal content are equal trees;
+  * `C02_root_of_content`      … hence have equal roots, for every hash function `H`;
+  * `C02_allOrigin_insert/_delete`  operations at version `v` only create nodes of origin `v`;
+  * `C02_run_repr`, `C02_history_independent`, `C02_root_history_independent`
+                               two operation sequences (exported `Insert`/`Delete`, one version) with the same
+                               abstract content produce the same tree and the same root
+                               (relative to `MapLaws`, the map-refinement facts of C01);
+  * `C02_injective` (def)      "different content ⇒ different root" for an injective hash — FALSE:
+    `C02_injective_false`      leaf ↔ extension type confusion (witness with `H = id`),
+    `C02_collision_any_hash`   leaf ↔ branch type confusion, a root collision for EVERY hash function,
+    `C02_not_injective`;
+  * `C02_injective_partial`, `_lookup`, `_fixed_length`
+                               equal roots ⇒ equal tries for canonical, single-origin, type-unambiguous (`Unamb`)
+                               tries when the hash has no collision among their node hash inputs.
 -/
 import Verif.Model.MptEnc
 import Verif.Lemmas.MptWF
+import Verif.Lemmas.MptCanon
+import Verif.Lemmas.MptCanonDec
+import Verif.Lemmas.MptHistory
+import Verif.Lemmas.MptEncInj
+import Verif.Lemmas.MptEncWitness
+import Verif.Lemmas.MptCanonExamples
 namespace Verif.Props.C02
 open Verif.Mpt
 
-/-- the root is a function of the tree: equal trees have equal roots (used with canonical-form uniqueness) -/
-theorem root_congr (H : Bytes → Bytes) (t₁ t₂ : Node) (h : t₁ = t₂) : root H t₁ = root H t₂ := by rw [h]
+/-! ### A. uniqueness of the canonical form -/
+
+/-- Two canonical tries whose nodes were all written at version `v` and which store the same path/value pairs are
+    the same tree. -/
+theorem C02_canonical_unique (v : Nat) (t₁ t₂ : Node) (hw₁ : WF t₁) (hw₂ : WF t₂)
+    (ho₁ : AllOrigin v t₁) (ho₂ : AllOrigin v t₂) (h : ∀ q, lookup t₁ q = lookup t₂ q) : t₁ = t₂ :=
+  canon_unique_wf v t₁ t₂ hw₁ hw₂ ho₁ ho₂ h
+
+/-- … and therefore have the same root key, whatever the hash function. -/
+theorem C02_root_of_content (H : Bytes → Bytes) (v : Nat) (t₁ t₂ : Node) (hw₁ : WF t₁) (hw₂ : WF t₂)
+    (ho₁ : AllOrigin v t₁) (ho₂ : AllOrigin v t₂) (h : ∀ q, lookup t₁ q = lookup t₂ q) :
+    root H t₁ = root H t₂ := by
+  rw [C02_canonical_unique v t₁ t₂ hw₁ hw₂ ho₁ ho₂ h]
+
+/-- non-vacuity (`exA₁`, `exA₂` in `Verif.Lemmas.MptCanonExamples`: the same two entries inserted in both orders; the
+    two trees differ as terms, their children functions being built in different orders) -/
+example : WF exA₁ ∧ WF exA₂ ∧ AllOrigin 7 exA₁ ∧ AllOrigin 7 exA₂ ∧ lookup exA₁ [0, 1] = some [1] ∧
+    ∀ q, lookup exA₁ q = lookup exA₂ q :=
+  ⟨exA_wf.1, exA_wf.2.1, exA_wf.2.2.1, exA_wf.2.2.2, by decide, exA_lookup⟩
+
+/-! ### B. origins -/
+
+theorem C02_allOrigin_insert (v : Nat) (b : Bytes) (t : Node) (p : List Nib) (h : AllOrigin v t) :
+    AllOrigin v (insert v b t p) :=
+  allOrigin_insert v b t p h
+
+theorem C02_allOrigin_delete (v : Nat) (t : Node) (p : List Nib) (t' : Node) (h : AllOrigin v t)
+    (hd : delete v t p = .node t') : AllOrigin v t' :=
+  allOrigin_delete v t p t' h hd
+
+example : AllOrigin 7 exA₁ ∧ delete 7 exA₁ [0, 1] = .node (.leaf 7 [0, 2] [2]) := ⟨by decide, rfl⟩
+
+/-! ### C. history independence -/
+
+/-! `MapLaws` (the C01 map-refinement facts as one named hypothesis), `Op`, `run`, `content` are defined in
+    `Verif.Lemmas.MptHistory`. -/
+
+/-- the trie produced by a sequence of operations is canonical, single-origin, and represents `content ops` -/
+theorem C02_run_repr (L : MapLaws) (maxSize v : Nat) (ops : List Op) :
+    WF (run maxSize v ops) ∧ AllOrigin v (run maxSize v ops) ∧
+      ∀ q, lookup (run maxSize v ops) q = content maxSize ops q :=
+  repr_runFrom L maxSize v ops .empty (fun _ => none) ⟨Or.inl rfl, by simp [AllOrigin], fun q => by simp⟩
+
+/-- **History independence.** At one trie version, two sequences of `Insert`/`Delete` calls that leave the same set of
+    path/value pairs produce the same tree — whatever the order of the calls and whatever was stored and removed in
+    between. -/
+theorem C02_history_independent (L : MapLaws) (maxSize v : Nat) (ops₁ ops₂ : List Op)
+    (h : content maxSize ops₁ = content maxSize ops₂) : run maxSize v ops₁ = run maxSize v ops₂ := by
+  obtain ⟨hw₁, ho₁, hm₁⟩ := C02_run_repr L maxSize v ops₁
+  obtain ⟨hw₂, ho₂, hm₂⟩ := C02_run_repr L maxSize v ops₂
+  exact C02_canonical_unique v _ _ hw₁ hw₂ ho₁ ho₂ (fun q => by rw [hm₁, hm₂, h])
+
+/-- … and therefore the same root hash, for every hash function `H`. -/
+theorem C02_root_history_independent (L : MapLaws) (H : Bytes → Bytes) (maxSize v : Nat) (ops₁ ops₂ : List Op)
+    (h : content maxSize ops₁ = content maxSize ops₂) :
+    root H (run maxSize v ops₁) = root H (run maxSize v ops₂) := by
+  rw [C02_history_independent L maxSize v ops₁ ops₂ h]
+
+/-- non-vacuity of the content hypothesis: different orders, and an entry stored and removed again -/
+def exOps₁ : List Op := [.ins [0, 1] [1], .ins [0, 2] [2], .ins [3] [9], .del [3]]
+def exOps₂ : List Op := [.ins [0, 2] [2], .ins [3] [], .ins [0, 1] [1]]
+
+example : content 100 exOps₁ = content 100 exOps₂ ∧ content 100 exOps₁ [0, 1] = some [1] ∧
+    run 100 7 exOps₁ = exA₁ ∧ run 100 7 exOps₂ = exA₂ := by
+  refine ⟨?_, by decide, rfl, rfl⟩
+  funext q
+  simp only [content, contentFrom, exOps₁, exOps₂, List.foldl, stepMap]
+  by_cases h1 : q = [0, 1] <;> by_cases h2 : q = [0, 2] <;> by_cases h3 : q = [3] <;> simp_all
+
+/-! ### D. "Two tries with different content have different roots" — false as stated; a partial form -/
+
+/-- the full claim: for a collision-free (injective) hash, equal roots imply equal content -/
+def C02_injective : Prop :=
+  ∀ H : Bytes → Bytes, Function.Injective H → ∀ (v : Nat) (t₁ t₂ : Node), WF t₁ → WF t₂ → AllOrigin v t₁ →
+    AllOrigin v t₂ → root H t₁ = root H t₂ → ∀ q, lookup t₁ q = lookup t₂ q
+
+/-- **Known finding (type confusion, leaf ↔ extension).**  The hash input has no node-type tag: an extension at
+    position `P` with path `P` whose child key starts with `:` encodes like a leaf at `P` with empty path.  Witness:
+    `H = id`, origin 58 (`xExt`, `xLeaf` in `Verif.Lemmas.MptEncWitness`). -/
+theorem C02_injective_false :
+    ∃ H : Bytes → Bytes, Function.Injective H ∧ ∃ (v : Nat) (t₁ t₂ : Node), WF t₁ ∧ WF t₂ ∧ AllOrigin v t₁ ∧
+      AllOrigin v t₂ ∧ (∃ q, lookup t₁ q ≠ lookup t₂ q) ∧ root H t₁ = root H t₂ :=
+  ⟨id, fun _ _ h => h, 58, xExt, xLeaf, by decide, by decide, by decide, by decide, ⟨[1], xLookup⟩, xRoot⟩
+
+/-- **Known finding (type confusion, leaf ↔ branch), for every hash function.**  A root leaf whose path is the hex
+    form of a node key and whose value is `hex(key₂) ++ 14 × ':'` has the same hash input as the root branch with
+    children 1 and 2 — no property of `H` is needed, so this is a collision for SHA3 as well. -/
+theorem C02_collision_any_hash (H : Bytes → Bytes) (v : Nat) :
+    ∃ t₁ t₂ : Node, WF t₁ ∧ WF t₂ ∧ AllOrigin v t₁ ∧ AllOrigin v t₂ ∧ (∃ q, lookup t₁ q ≠ lookup t₂ q) ∧
+      root H t₁ = root H t₂ :=
+  ⟨cLeaf H v, cFull v, (cWF H v).1, (cWF H v).2, (cOrigin H v).1, (cOrigin H v).2, ⟨[1], cLookup H v⟩, cRoot H v⟩
+
+/-- the full claim fails -/
+theorem C02_not_injective : ¬ C02_injective := by
+  intro h
+  obtain ⟨t₁, t₂, hw₁, hw₂, ho₁, ho₂, ⟨q, hq⟩, hr⟩ := C02_collision_any_hash id 0
+  exact hq (h id (fun _ _ e => e) 0 t₁ t₂ hw₁ hw₂ ho₁ ho₂ hr q)
+
+/-- **Partial form.**  If the hash has no collision among the node hash inputs of the two tries (`CollisionFree`,
+    implied by injectivity), never returns the nil key, and both tries are *type-unambiguous* (`Unamb`, see
+    `Verif.Lemmas.MptEncInj`), then equal roots imply equal tries.  `Unamb H t []` excludes exactly:
+    * leaf ↔ branch: a leaf located at `[]` or at a position spelling a hash whose value has ≥ 14 bytes `:`;
+    * extension ↔ leaf: an extension whose path equals its own position and whose child key is hex digits then `:`;
+    * extension ↔ branch: an extension whose path spells a hash and whose child key is hex digits then `:`. -/
+theorem C02_injective_partial (H : Bytes → Bytes) (hne : ∀ x, H x ≠ []) (v : Nat) (t₁ t₂ : Node)
+    (hcf : CollisionFree H t₁ t₂ []) (hw₁ : WF t₁) (hw₂ : WF t₂) (ho₁ : AllOrigin v t₁) (ho₂ : AllOrigin v t₂)
+    (hu₁ : Unamb H t₁ []) (hu₂ : Unamb H t₂ []) (h : root H t₁ = root H t₂) : t₁ = t₂ :=
+  key_inj H hne v t₁ t₂ [] hw₁ hw₂ ho₁ ho₂ hu₁ hu₂ hcf h
+
+/-- the partial form in the shape of `C02_injective` (injective hash, equal content) -/
+theorem C02_injective_partial_lookup (H : Bytes → Bytes) (hinj : Function.Injective H) (hne : ∀ x, H x ≠ [])
+    (v : Nat) (t₁ t₂ : Node) (hw₁ : WF t₁) (hw₂ : WF t₂) (ho₁ : AllOrigin v t₁) (ho₂ : AllOrigin v t₂)
+    (hu₁ : Unamb H t₁ []) (hu₂ : Unamb H t₂ []) (h : root H t₁ = root H t₂) : ∀ q, lookup t₁ q = lookup t₂ q := by
+  rw [C02_injective_partial H hne v t₁ t₂ (collisionFree_of_injective hinj _ _ _) hw₁ hw₂ ho₁ ho₂ hu₁ hu₂ h]
+  intro q; rfl
+
+/-- for a hash with `n`-byte output the length-based condition `UnambLen n` suffices (n = 32 for SHA3-256;
+    collision freedom is then the hypothesis `CollisionFree`, which — unlike injectivity — a compressing hash can
+    satisfy) -/
+theorem C02_injective_partial_fixed_length (H : Bytes → Bytes) (n : Nat) (hn : 0 < n) (hlen : ∀ x, (H x).length = n)
+    (v : Nat) (t₁ t₂ : Node) (hcf : CollisionFree H t₁ t₂ []) (hw₁ : WF t₁) (hw₂ : WF t₂) (ho₁ : AllOrigin v t₁)
+    (ho₂ : AllOrigin v t₂) (hu₁ : UnambLen n H t₁ []) (hu₂ : UnambLen n H t₂ []) (h : root H t₁ = root H t₂) :
+    t₁ = t₂ :=
+  C02_injective_partial H (fun x hx => by have := hlen x; rw [hx] at this; simp at this; omega) v t₁ t₂ hcf hw₁ hw₂
+    ho₁ ho₂ (unamb_of_unambLen hlen _ _ hu₁) (unamb_of_unambLen hlen _ _ hu₂) h
+
+/-- non-vacuity of `C02_injective_partial` / `_lookup`: an injective hash that never returns the nil key, two canonical
+    type-unambiguous tries (built in different orders) with equal roots -/
+example : Function.Injective exH ∧ (∀ x, exH x ≠ []) ∧ CollisionFree exH exA₁ exA₂ [] ∧ WF exA₁ ∧ WF exA₂ ∧
+    AllOrigin 7 exA₁ ∧ AllOrigin 7 exA₂ ∧ Unamb exH exA₁ [] ∧ Unamb exH exA₂ [] ∧ root exH exA₁ = root exH exA₂ :=
+  ⟨exH_inj, fun _ h => (by cases h), collisionFree_of_injective exH_inj _ _ _, exA_wf.1, exA_wf.2.1, exA_wf.2.2.1,
+    exA_wf.2.2.2, exA_unamb.1, exA_unamb.2,
+    C02_root_of_content exH 7 _ _ exA_wf.1 exA_wf.2.1 exA_wf.2.2.1 exA_wf.2.2.2 exA_lookup⟩
+
+/-- non-vacuity of `C02_injective_partial_fixed_length`: its hypotheses are compatible with a compressing hash -/
+example : (0 < 4) ∧ (∀ x, (exH4 x).length = 4) ∧ CollisionFree exH4 (.leaf 7 [1, 2] [5]) (.leaf 7 [1, 2] [5]) [] ∧
+    WF (.leaf 7 [1, 2] [5]) ∧ AllOrigin 7 (.leaf 7 [1, 2] [5]) ∧ UnambLen 4 exH4 (.leaf 7 [1, 2] [5]) [] :=
+  ⟨by decide, exH4_spec.1, exH4_spec.2.1, by decide, by decide, exH4_spec.2.2⟩
+
+/-- the witnesses of the two findings violate `Unamb` (so the side condition is not satisfied by accident):
+    the root leaf of `cLeaf` sits at position `[]` and its value has 14 separators -/
+example (H : Bytes → Bytes) (v : Nat) : ¬ Unamb H (cLeaf H v) [] := by
+  intro h
+  have := h (Or.inl rfl)
+  simp [List.count_append] at this
+  omega
 
 end Verif.Props.C02
